@@ -25,11 +25,13 @@ const canary = 0xC7
 
 // decodeIn runs Decode on input placed in the middle of a canary-filled
 // arena. spare=false gives the slice cap == len.
-func decodeIn(c DCase, spare bool) (fail string, accepted bool, n int) { return decodeInUsed(c, spare, nil) }
+func decodeIn(c DCase, spare bool) (fail string, accepted bool, n int) {
+	return decodeInUsed(c, spare, -1)
+}
 
-// decodeInUsed is decodeIn with a message object that has decoded the packet
-// prev before (nil: a fresh object).
-func decodeInUsed(c DCase, spare bool, prev []byte) (fail string, accepted bool, n int) {
+// decodeInUsed is decodeIn with a message object that has been used before
+// (usedObject(type, used); used < 0: a fresh object).
+func decodeInUsed(c DCase, spare bool, used int) (fail string, accepted bool, n int) {
 	const pad = 96
 	arena := make([]byte, pad+len(c.Input)+pad)
 	for i := range arena {
@@ -46,8 +48,10 @@ func decodeInUsed(c DCase, spare bool, prev []byte) (fail string, accepted bool,
 	if err != nil {
 		return "", false, 0
 	}
-	if prev != nil {
-		m.Decode(clone(prev))
+	if used >= 0 {
+		if m = usedObject(c.Decoder, used); m == nil {
+			return "", false, -1
+		}
 	}
 	var derr error
 	panicked := func() (p interface{}) {
@@ -110,7 +114,10 @@ func checkDecode(c DCase) (fail string, classes []string) {
 	// session into the session's existing object): same decision, same count, and every
 	// field it then exposes lies inside THIS input
 	for pi, prev := range usedWith(c.Decoder) {
-		f3, acc3, n3 := decodeInUsed(c, false, prev)
+		f3, acc3, n3 := decodeInUsed(c, false, pi)
+		if n3 == -1 && f3 == "" {
+			continue // no such used object
+		}
 		if f3 != "" {
 			return fmt.Sprintf("%s [message object that had decoded base packet #%d of its type before: %x]", f3, pi, clipb(prev)), nil
 		}
